@@ -255,6 +255,10 @@ SUPPLEMENTED = {
 }
 
 
+# ml operators for which ONNX infers an element type and no shape (Binarizer: the input type as it is)
+ML_ELEM_ONLY = {"Scaler", "LinearRegressor", "Normalizer", "Imputer", "Binarizer"}  # (ArrayFeatureExtractor, OneHotEncoder: ONNX infers a shape too)
+
+
 def is_supplemented(op: Op) -> bool:
     return (op.domain, op.name, op.schema().since_version) in SUPPLEMENTED
 
@@ -316,7 +320,8 @@ def _pick(rng, weighted):
     return weighted[-1][0]
 
 
-SYM_POOLS = [(("N", "M", "K"), 84), (("batch_size", "N", "d_\u00e9"), 8), (("0", "unk_1", "N"), 8)]
+SYM_POOLS = [(("N", "M", "K"), 80), (("batch_size", "N", "d_\u00e9"), 7), (("0", "unk_1", "N"), 6),
+             (("unk__0", "N", "unk__12"), 7)]  # the caller's own names that look like ONNX's invented ones
 _SYM_POOL = [("N", "M", "K")]  # the pool of the call being generated (set by gen_call)
 
 
@@ -432,7 +437,7 @@ def _gen_attr_value(rng, op_name, aname, a, rank, is_dtype=False):
         shape = [d if isinstance(d, int) else 2 for d in shape]
         return {"tensor": {"dtype": e, "shape": shape, "data": _const_data(rng, e, shape)}}
     if t == T.TYPE_PROTO:
-        return {"type": {"t": rng.choice([1, 7]), "s": _rand_dims(rng, rng.randint(0, 2))}}
+        return {"type": {"t": rng.choice([1, 7]), "s": _rand_dims(rng, rng.randint(0, 2), sym_pool=("N", "M", "K"))}}
     return None  # GRAPH / SPARSE_TENSOR: not generated
 
 
@@ -650,6 +655,10 @@ def gen_call(rng, op: Op, force: Optional[str] = None) -> dict:
     """One abstract constructor call for `op`. `force` selects a calling-form family
     ("constfed": every operand a known constant, value propagation on)."""
     _SYM_POOL[0] = _pick(rng, SYM_POOLS)
+    if op.name in BODY_OPS and "unk__0" in _SYM_POOL[0]:
+        # (names reaching the outputs through a body's outer-scope values are not operand names: the
+        #  constructor only looks at the input types - not generated, see design.d)
+        _SYM_POOL[0] = ("N", "M", "K")
     if op.name in BODY_OPS:
         return _ambient(rng, _gen_body_call(rng, op, "plain" if force == "constfed" else force))
     constfed = force == "constfed"
@@ -1271,9 +1280,16 @@ def has_optional_outputs(op: Op) -> bool:
 def oracle_run(op: Op, call, explicit_defaults: bool = False, optional_outputs: bool = True) -> dict:
     """ONNX's strict type-and-shape inference on the hand-built node."""
     model = oracle_model(op, call, explicit_defaults, optional_outputs)
+    # dimension names that are the caller's: those of the operands of THIS call (a flow / history
+    # shares its Var list between calls) and of the outer-scope values its bodies read
     known = set()
-    for v in call["vars"]:
-        dim_params(v["ty"], known)
+    used = {v for a in call["args"] for v in (a if isinstance(a, list) else [a]) if v is not None}
+    if call.get("sub") and call["op"] in ("If", "Loop"):
+        for lst in call["sub"].values():
+            used |= {v for v in lst if isinstance(v, int)}
+    for i, v in enumerate(call["vars"]):
+        if i in used:
+            dim_params(v["ty"], known)
     for val in call["attrs"].values():
         if isinstance(val, dict) and "type" in val:
             dim_params(val["type"], known)
@@ -1686,6 +1702,11 @@ def model_request(op: Op, call, sp: dict) -> Optional[dict]:
         sp["proto_obs"] = {"to": real_to, "from": real_from}
     except Exception as e:  # noqa: BLE001
         sp["proto_obs_error"] = f"{type(e).__name__}: {e}"[:200]
+    # ONNX's own answer for the ml operators whose inference spox replaces (model: MLOnnx.onnxMlElem)
+    if op.name in ML_ELEM_ONLY and call["args"] and isinstance(call["args"][0], int):
+        t0 = call["vars"][call["args"][0]]["ty"]
+        if t0 is not None and "t" in t0 and t0["t"] in (1, 11, 6, 7, 9, 8):
+            req["ml_onnx"] = {"op": op.name, "elem": t0["t"]}
     if "formals" in sp["node"] and not any(has_other(t) for t in sp["node"]["formals"]["real"]):
         req["formals"] = {k: v for k, v in sp["node"]["formals"].items() if k != "real"}
     for k in ("loop", "compress"):
